@@ -47,7 +47,8 @@ THEOREMS = {
     "C08": _t("C08", "FlooVerif.C08U.portElem_depth", "FlooVerif.C08U.kept_length", "FlooVerif.C08U.portElem_single"),
     "C10": _t("C10", "FlooVerif.C10.no_output_on_error", "FlooVerif.C10.rejected_of_gen_error", "FlooVerif.C10.validate_ok",
               "FlooVerif.C10.reject_invalid_range", "FlooVerif.C10.reject_empty_range", "FlooVerif.C10.reject_contradictory_range",
-              "FlooVerif.C10.reject_sbr_without_range", "FlooVerif.C10.reject_tableless_id_without_offset", "FlooVerif.C10.reject_duplicate_endpoint_names",
+              "FlooVerif.C10.reject_sbr_without_range", "FlooVerif.C10.reject_tableless_id_without_offset",
+              "FlooVerif.C10.matchLists_count_mismatch", "FlooVerif.C10.matchLists_not_dividing", "FlooVerif.C10.matchLists_ok_lengths", "FlooVerif.C10.reject_duplicate_endpoint_names",
               "FlooVerif.C10.reject_duplicate_router_names", "FlooVerif.C10.reject_unidirectional",
               "FlooVerif.C10.reject_addr_width_mismatch") +
            _t("C01U", "FlooVerif.C01U.overlap_rejected"),
@@ -65,7 +66,9 @@ THEOREMS = {
            _t("C13Order", "FlooVerif.C13U.sam_idx_enumerates", "FlooVerif.C13U.names_nodup_of_genSam", "FlooVerif.C13U.dict_of_nodup"),
     "C14": _t("C14", "FlooVerif.C14.lower_bound_of_potValid", "FlooVerif.C14.route_is_shortest",
               "FlooVerif.C14.not_shortest_of_shorter") + [("FlooVerif.potential_lower_bound", "FlooVerif.Lemmas.Paths")] +
-           _t("C02U", "FlooVerif.C02U.route_is_minimal", "FlooVerif.C02U.tables_deliver"),
+           _t("C02U", "FlooVerif.C02U.route_is_minimal", "FlooVerif.C02U.tables_deliver") +
+           _t("Bfs", "FlooVerif.Bfs.bfs_sound", "FlooVerif.Bfs.bfs_complete", "FlooVerif.Bfs.spContract") +
+           _t("C02Model", "FlooVerif.C02M.model_route_minimal", "FlooVerif.C02M.model_oracle_contract"),
     "C16": _t("C16", "FlooVerif.C16.trim_decode_eq", "FlooVerif.C16.trim_covers_iff", "FlooVerif.C16.trim_overlap_free",
               "FlooVerif.C16.trim_sizes", "FlooVerif.C16.trim_no_touching"),
     "C17": _t("C17", "FlooVerif.C17.mkRange_wf", "FlooVerif.C17.mkRange_based", "FlooVerif.C17.setIdx_spec",
